@@ -126,7 +126,11 @@ def stats(verdicts):
         for l, o in zip(v['case'], v['impl']):
             if l.startswith('proxy'): d['real_transport_body_faults'] = d.get('real_transport_body_faults', 0) + 1
             if l.startswith('runbig'): d['sim_body_faults'] = d.get('sim_body_faults', 0) + 1
-            if l.startswith('runrv'): d['sim_dependent_concurrent'] = d.get('sim_dependent_concurrent', 0) + 1
+            if l.startswith('runrv'):
+                d['sim_dependent_concurrent'] = d.get('sim_dependent_concurrent', 0) + 1
+                # not a violation by the letter of C14 (a connection error is an allowed outcome), but worth seeing: with no fault
+                # scheduled nothing should fail (simultaneous requests on one simulated channel did, between a85e19d and its follow-up)
+                d['fault_free_conn_errors'] = d.get('fault_free_conn_errors', 0) + sum(1 for e in o.split() if ':conn:' in e)
             if l.startswith('run ') and o.startswith('trace'):
                 d['runs'] += 1
                 ev = o.split()[3:]
